@@ -45,7 +45,30 @@ def gen(rng):
     ep_sigs = sigs(extra=['p', 'q', 'request', 'context', 'next'])
     rn_sigs = [None] + sigs(first='context', extra=['p', 'q']) + sigs(extra=['p', 'next'])
     mw_sigs = [None] + sigs(first='next', extra=['p', 'q', 'request', 'context']) + sigs(extra=['p']) + [{'pos': []}]
+    slots = ['provides', 'endpoint_provides', 'render_provides']
     while True:
+        if rng.random() < 0.25:
+            # directed family: an otherwise acceptable configuration in which exactly one name is offered twice --
+            # by two phases of one middleware, by two middlewares, or by a middleware and the URL / a resource
+            n = rng.choice(['a', 'b', 'p', 'q'])
+            mws = [{} for _ in range(rng.choice([1, 1, 2, 3]))]
+            i = rng.randrange(len(mws))
+            k1 = rng.choice(slots)
+            mws[i][k1] = [n]
+            how = rng.choice(['same-mw', 'other-mw', 'url', 'resource', 'none'])
+            url, res = [], []
+            if how == 'same-mw':
+                mws[i][rng.choice([k for k in slots if k != k1])] = [n]
+            elif how == 'other-mw' and len(mws) > 1:
+                j = rng.choice([x for x in range(len(mws)) if x != i])
+                mws[j][rng.choice(slots)] = [n]
+            elif how == 'url':
+                url = [n]
+            elif how == 'resource':
+                res = [n]
+            yield {'mws': mws, 'endpoint': {'pos': []}, 'render': None, 'resources': res, 'url': url,
+                   'level': rng.choice(['app', 'route'])}
+            continue
         nm = rng.choice([0, 0, 1, 1, 2, 2, 3])
         mws = []
         for _ in range(nm):
